@@ -334,6 +334,20 @@ func c06Check(cs *drv.Case, p tthParams, payloadLen int, sched int) {
 		fail("payload-delimiting", "bytes after the header are not the payload (err=%v)", err)
 	}
 	dr.Release(nil)
+	// the decoded parameters are values: they must not change when the reader has been released,
+	// its pool buffers are reused by somebody else, and the caller recycles the input slice
+	for k := range frame {
+		frame[k] = 0xFF
+	}
+	ct := &coTenant{r: cs.R}
+	ct.run(cs, nil, nil, nil, len(frame)+4096, "c06")
+	ct.done()
+	for k, d := range []ttheader.DecodeParam{dp, dp2} {
+		if !mapsEqualInt(d.IntInfo, p.Int) || !mapsEqualStr(d.StrInfo, p.Str) {
+			fail("decoded-params-changed", "%s: the decoded maps changed after the reader was released / the input buffer was reused", []string{"DecodeFromBytes", "Decode/DefaultReader"}[k])
+			return
+		}
+	}
 	cs.C.Obs("frames round-tripped", 1)
 	if want%4 == 0 && p.infoSizeUnpadded()%4 != 0 {
 		cs.C.Obs("frames with padding", 1)
